@@ -80,6 +80,8 @@ def geo_data(tier, seed, inputs=None, name="geo", opts=1 | 2 | 8, flags=8, profi
     with open(cf, "w") as f:
         for inp in inputs:
             o = opts | (4 if (inp["dim"] == 3 and (opts & 2)) else 0)
+            if (opts & 8) and "K2-cluster" in T.known_class(inp):
+                o |= 16       # full decision list: the class K2 is decided from the construction history (see k2_history)
             f.write(T.case_line(inp, o) + "\n")
     t0 = time.time()
     rc, impl, out = C.run_impl(exe, cf, os.path.join(wd, f"{name}.out"), env=extra_env)
@@ -100,6 +102,13 @@ def geo_data(tier, seed, inputs=None, name="geo", opts=1 | 2 | 8, flags=8, profi
     recs = []
     for k, inp in enumerate(inputs):
         o = impl.get(k)
+        if o is not None and o.get("decisions") is not None and "K2-cluster" in T.known_class(inp):
+            import decisions
+            st, badd = decisions.check(inp, o["decisions"], max_exact=20000)
+            o["k2_checked"] = True
+            o["k2_history"] = len(badd) > 0 or st["skipped_budget"] > 0
+            if not (opts & 16):
+                del o["decisions"]
         rec = {"inp": inp, "impl_raw": o, "model": {}, "model_raw": {}, "e": metas[k]["e"], "ms": metas[k]["ms"]}
         for (kk, gi), m in model_raw.items():
             if kk == k:
@@ -200,9 +209,10 @@ def panic_signature(o, inp):
     else:
         return msg[:40].replace(" ", "_")
     cls = T.known_class(inp)
-    for k in ("K1-wall", "K2-cluster"):
-        if k in cls:
-            return head + ":" + k
+    if "K1-wall" in cls:
+        return head + ":K1-wall"
+    if "K2-cluster" in cls and k2_applies(o):
+        return head + ":K2-cluster"
     tr = (o or {}).get("trace") or {}
     if tr.get("exact", 0) > 0:
         return head + ":K4-degenerate"
@@ -213,12 +223,22 @@ def mismatch_class(rec):
     """suffix for geometric mismatch signatures on inputs of a recorded class where wrong geometry (not only
     panics) is part of the finding: clusters (K2) and ill-scaled 1D/2D boxes (K3)"""
     cls = T.known_class(rec["inp"])
-    for k in ("K2-cluster", "K3-illscaled"):
-        if k in cls:
-            return ":" + k
+    if "K2-cluster" in cls and k2_applies(rec.get("impl_raw")):
+        return ":K2-cluster"
+    if "K3-illscaled" in cls:
+        return ":K3-illscaled"
     if k5_history(rec.get("impl_raw")):
         return ":K5-dependent-planes"
     return ""
+
+
+def k2_applies(o):
+    """recorded finding K2 (clusters), decided from the construction history when it is available: some decision was taken by the
+    floating-point filter alone and contradicts the exact sign on the ideal geometry (tools/decisions.py).  A cluster input whose
+    construction shows no such decision is held to the normal standard.  Without a decision list (hook-driven runs) the input class decides"""
+    if o is None or not o.get("k2_checked"):
+        return True
+    return bool(o.get("k2_history"))
 
 
 def k5_history(o):
